@@ -77,6 +77,22 @@ pub fn gen(prop: &str, seed: u64, thorough: bool, out: &mut impl Write) {
                 }
                 emit(out, &c);
             }
+            // tables whose non-zero entries "cancel": the same word in two or four slots, words a, b, a^b,
+            // a word and its two's complement (is_empty must look at every entry, not at a fold of them)
+            for _ in 0..tabs {
+                let mut c = vec![3];
+                let w = if rng.chance(2, 3) { aligned_phys(rng) | flagset(rng) | 1 } else { any_u64(rng) | 1 };
+                let w2 = aligned_phys(rng) | flagset(rng) | 1;
+                let mut slots: Vec<u64> = vec![];
+                while slots.len() < 4 { let i = if rng.chance(1, 4) { rng.pick(&[0u64, 1, 255, 256, 510, 511]) } else { rng.below(512) }; if !slots.contains(&i) { slots.push(i); } }
+                match rng.below(4) {
+                    0 => for i in &slots[..2] { c.extend([rng.below(3), *i, w]); },
+                    1 => for i in &slots { c.extend([rng.below(3), *i, w]); },
+                    2 => { c.extend([rng.below(3), slots[0], w]); c.extend([rng.below(3), slots[1], w2]); c.extend([rng.below(3), slots[2], w ^ w2]); }
+                    _ => { c.extend([rng.below(3), slots[0], w]); c.extend([rng.below(3), slots[1], w.wrapping_neg()]); }
+                }
+                emit(out, &c);
+            }
         }
         "C14" => {
             let maxes = [0u64, 1, 2, 3, 8, 9, 8192, 8193];
@@ -110,6 +126,8 @@ pub fn gen(prop: &str, seed: u64, thorough: bool, out: &mut impl Write) {
                     emit(out, &[10, p]);
                 }
             }
+            for io in [0u64, 1, 0x67, 0x68, 0x69, 0x100, 0x7fff, 0x8000, 0xfffe, 0xffff] { emit(out, &[14, io, rng.next()]); }
+            for _ in 0..2000 { emit(out, &[14, rng.below(1 << 16), rng.next()]); }
             let n = if thorough { 3_000_000 } else { 60_000 };
             for _ in 0..n {
                 emit(out, &[10, any_u64(rng)]);
@@ -339,6 +357,11 @@ fn judge(prop: &str, c: &[u64], a: &[i128]) -> (Option<&'static str>, Option<&'s
                 if (lo >> 45) & 3 != 0 || (lo >> 47) & 1 != 1 { return (Some("TSS descriptor must be present, ring 0"), None, true); }
                 if (lo >> 52) & 0xf != 0 || hi >> 32 != 0 { return (Some("TSS descriptor reserved/AVL/G bits must be zero"), None, true); }
                 (None, None, p >> 24 != 0)
+            }
+            14 => {
+                if a.iter().any(|x| *x == -1) { return (Some("tss_segment (safe constructor) panicked"), None, true); }
+                if a != [0, 0] { return (Some("tss_segment(&tss) must be the descriptor of the TSS's address (base = address, limit 0x67) whatever the TSS contains"), None, true); }
+                (None, None, c[1] != 0x68)
             }
             11 => {
                 let linux: [i128; 6] = [0x00cf93000000ffff, 0x00cf9b000000ffff, 0x00af9b000000ffff, 0x00cff3000000ffff, 0x00cffb000000ffff, 0x00affb000000ffff];
